@@ -21,14 +21,15 @@ BOUNDS = ("12 scenario scripts over the public API (construction, transfer by vo
 OUTSIDE = ("IEEE rounding; differences confined to the boundary slack of the coarser storage unit (e.g. storing litres "
            "with 10 decimals resolves 1e-4 uL); display-unit settings; RecipeStep.dataframe/HTML renderings; default "
            "densities (C06).")
-ASSUMPTIONS = ["each configuration is a separate import of /repo's pyplate package under its own PYPLATE_CONFIG directory "
+ASSUMPTIONS = ["Recipe._rounding_noise (the library's own bound on float rounding noise, the tolerance of get_substance_used's net-decrease test) is 0 in the real-number model, where roundings at internal precision are the identity; native companion runs use the real one",
+               "each configuration is a separate import of /repo's pyplate package under its own PYPLATE_CONFIG directory "
                "(generated at run time under /verif/.cfg), shims installed in both",
                "instruction-text helpers are replaced by non-forking summaries (subject of C19)"]
 EXPECT_OUTCOMES = ['ok']
 
 VERIF = os.path.dirname(os.path.dirname(os.path.dirname(os.path.abspath(__file__))))
 SCENARIOS = ['ctor', 'transfer_mL', 'transfer_mg', 'transfer_mmol', 'solution_pure', 'solution_container_mass',
-             'solution_from', 'dilute', 'fill_to', 'remove', 'plate', 'capacity', 'recipe']
+             'solution_from', 'dilute', 'dilute_capacity', 'fill_to', 'remove', 'plate', 'capacity', 'recipe']
 
 
 def config_dir(moles, volume, precision):
@@ -130,6 +131,11 @@ class Run:
             self.see_container('x', x)
         elif name == 'dilute':
             x = C('x', initial_contents=[(water, f"{a} mL"), (salt, f"{b} mmol")])
+            y = x.dilute(salt, f"{c} M", dmso)
+            self.see_container('y', y)
+        elif name == 'dilute_capacity':
+            # a vessel of finite capacity: whether the diluted solution fits must not depend on the configuration
+            x = C('x', f"{q} mL", initial_contents=[(water, f"{a} mL"), (salt, f"{b} mmol")])
             y = x.dilute(salt, f"{c} M", dmso)
             self.see_container('y', y)
         elif name == 'fill_to':
